@@ -36,7 +36,8 @@ EXTENDS Naturals, Sequences, FiniteSets, TLC
 
 CONSTANTS Scope,    \* 0 = quick domains, 1 = larger domains (thorough)
           Defects   \* the open findings of known_findings/C16.json that the reference reader mirrors
-                    \* ("F1": a HashMap in an attribute is not readable from a model value)
+                    \* ("F1": a HashMap in an attribute is not readable from a model value;
+                    \*  "F12": a Duration as #[form(body)] is not readable)
 
 (***************************************************************************)
 (* 1. Abstract model values                                                *)
@@ -44,7 +45,9 @@ CONSTANTS Scope,    \* 0 = quick domains, 1 = larger domains (thorough)
 (*    integer type) | n negative int (fits i32) | g int > u32::MAX (fits   *)
 (*    i64 and u64) | h in (i32::MAX, u32::MAX] | G in (i64::MAX, u64::MAX] |*)
 (*    N in [i64::MIN, i32::MIN) | B > u64::MAX | M < i64::MIN |            *)
-(*    T timestamp micros | z nanoseconds < 10^9 | d blob |                 *)
+(*    T / U timestamp micros (whole seconds / with a sub-second part) |    *)
+(*    z nanoseconds < 10^9 | i / q in [1, i32::MAX] | Z zero | c a literal |*)
+(*    L = i64::MAX | d blob | r route uri |                                *)
 (*    f non-integral float | b bool | s pooled string |                    *)
 (*    t literal text (field names, tags)                                   *)
 (***************************************************************************)
@@ -54,6 +57,8 @@ Attr(n, v)        == [n |-> n, v |-> v]
 Slot(key, v)      == [slot |-> TRUE, key |-> key, v |-> v]
 Item(v)           == [slot |-> FALSE, v |-> v]
 Extant            == Leaf("x", "")
+Const(n)          == Leaf("c", n)          \* the integer with the decimal literal n
+Zero              == Leaf("Z", "")         \* the integer 0
 Txt(s)            == Leaf("t", s)
 Sym(c, n)         == Leaf(c, n)
 IsRec(v)          == v.k = "rec"
@@ -84,10 +89,26 @@ Vec(e)     == [c |-> "vec", e |-> e]
 Map(k, v)  == [c |-> "map", key |-> k, val |-> v]
 Tuple(es)  == [c |-> "tuple", es |-> es]
 Named(n)   == [c |-> "named", n |-> n]
+Quant(e)   == [c |-> "quant", e |-> e]      \* swimos Quantity<T>: a T or the text `infinite`
+
+\* instances (section 3), needed here for the default values of fields
+NoneI        == [k |-> "none"]
+InfI         == [k |-> "inf"]
+FinI(x)      == [k |-> "fin", v |-> <<x>>]
+SomeI(x)     == [k |-> "some", v |-> <<x>>]
+VecI(xs)     == [k |-> "vec", v |-> xs]
+MapI(es)     == [k |-> "map", v |-> es]
+TupleI(xs)   == [k |-> "tuple", v |-> xs]
+StructI(n, xs) == [k |-> "struct", var |-> n, v |-> xs]
+AnyI         == [k |-> "any"]      \* an accepted value the reference reader leaves unspecified
 
 \* a field: rust = name in the Rust source (for building the typed value), name = label after
 \* rename / convention ("" = written as a value item), role = where the derive macro puts it
 F(rust, name, role, ty) == [rust |-> rust, name |-> name, role |-> role, ty |-> ty]
+\* a field of a hand-written lenient reader (Duration, RetryStrategy): when absent it takes the default value dflt,
+\* when repeated the last occurrence wins
+FD(rust, name, role, ty, dflt) == [rust |-> rust, name |-> name, role |-> role, ty |-> ty, dflt |-> dflt]
+Lenient(f) == "dflt" \in DOMAIN f
 Roles == {"slot", "attr", "header", "hbody", "body", "skip", "tag"}
 \* shape = serde / Rust shape: unit | named | tuple | newtype (exactly one unnamed field)
 Struct(tag, shape, fields)      == [kind |-> "struct", tag |-> tag, shape |-> shape, fields |-> fields]
@@ -104,15 +125,16 @@ OpOf(kt, vt) == Enum(<<
 
 \* ---- the position battery: every primitive kind of Form in every structural position -----------------
 \* kinds ("w" prims have the wide boundary domains) and the positions a field of that kind is put in
-PosKinds == {"i32", "i64", "u32", "u64", "usize", "f64", "bool", "string", "text", "bigint", "biguint", "blob", "boxblob",
-             "unit", "timestamp", "arc", "duration"}
+PosKinds == {"i32", "i64", "u32", "u64", "usize", "nzusize", "f64", "bool", "string", "text", "uri", "bigint", "biguint",
+             "blob", "boxblob", "mblob", "unit", "timestamp", "arc", "duration", "retry"}
 Positions == {"Plain", "Slot", "Attr", "Hdr", "HBody", "Body", "Vec", "Opt", "MapKey", "MapVal"}
 KindTy(k) == CASE k = "i32" -> Prim("i32w") [] k = "i64" -> Prim("i64w") [] k = "u32" -> Prim("u32w") [] k = "u64" -> Prim("u64w")
                [] k = "f64" -> Prim("f64w") [] k = "string" -> Prim("stringw") [] k = "arc" -> Prim("i32w")
-               [] k = "boxblob" -> Prim("blob") [] k = "duration" -> Named("Duration")
+               [] k = "boxblob" -> Prim("blob") [] k = "mblob" -> Prim("blob") [] k = "duration" -> Named("Duration")
+               [] k = "retry" -> Named("RetryStrategy")
                [] OTHER -> Prim(k)
 \* HashMap keys need Eq + Hash; Option<()> is not distinguishable from ()
-ValidPos(pos, k) == /\ (pos = "MapKey" => k \notin {"f64", "timestamp", "arc", "duration"})
+ValidPos(pos, k) == /\ (pos = "MapKey" => k \notin {"f64", "timestamp", "arc", "duration", "retry", "mblob"})
                     /\ (pos = "Opt" => k # "unit")
 PosKey(pos, k) == pos \o "_" \o k
 PosKeys == {PosKey(pk[1], pk[2]) : pk \in {q \in Positions \X PosKinds : ValidPos(q[1], q[2])}}
@@ -129,9 +151,26 @@ PosType(pos, t) ==
     [] pos = "MapKey" -> Plain(Map(t, I32))
     [] pos = "MapVal" -> Plain(Map(STR, t))
 
+\* (a constant: TLC evaluates the table once)
+PosTypes == [key \in PosKeys |-> PosType(PosOf(key)[1], KindTy(PosOf(key)[2]))]
+
 TypeOf(key) ==
-  IF key \in PosKeys THEN PosType(PosOf(key)[1], KindTy(PosOf(key)[2])) ELSE
-  CASE key = "Duration" -> Struct("duration", "named", <<F("secs", "secs", "slot", Prim("u64w")), F("nanos", "nanos", "slot", Prim("nanos"))>>)
+  IF key \in PosKeys THEN PosTypes[key] ELSE
+  CASE key = "Duration" -> Struct("duration", "named", <<FD("secs", "secs", "slot", Prim("secs"), Zero), FD("nanos", "nanos", "slot", Prim("nanos"), Zero)>>)
+    \* swimos_utilities::future::RetryStrategy (hand-written Form), the values its constructors build
+    [] key = "RetryStrategy" -> Enum(<<
+          \* (defaults: swimos_future retry_strategy.rs DEFAULT_*; an interval without delay is an immediate strategy
+          \*  with the interval's retries: the value is left unspecified, AnyI)
+          Variant("Immediate", "immediate", "named", <<FD("retries", "retries", "slot", Prim("nzusize"), Const("16"))>>),
+          Variant("Interval", "interval", "named", <<FD("delay", "delay", "slot", Named("Duration"), AnyI),
+                                                     FD("retries", "retries", "slot", Quant(Prim("nzusize")), FinI(Const("8")))>>),
+          Variant("Exponential", "exponential", "named",
+                  <<FD("max_interval", "max_interval", "slot", Named("Duration"), StructI(0, <<Const("16"), Zero>>)),
+                    FD("max_backoff", "max_backoff", "slot", Quant(Named("Duration")), FinI(StructI(0, <<Const("300"), Zero>>)))>>),
+          Variant("None", "none", "unit", <<>>) >>)
+    [] key = "Value"    -> Plain(VAL)
+    [] key = "AttrTup"  -> Struct("AttrTup", "named", <<F("a", "a", "attr", Tuple(<<I32, STR>>)), F("x", "x", "slot", I32)>>)
+    [] key = "HBodyTup" -> Struct("HBodyTup", "named", <<F("hb", "hb", "hbody", Tuple(<<I32, STR>>)), F("x", "x", "slot", I32)>>)
     [] key = "Unit"     -> Struct("Unit", "unit", <<>>)
     [] key = "Simple"   -> Struct("Simple", "named", <<F("first", "first", "slot", I32)>>)
     [] key = "Two"      -> Struct("Two", "named", <<F("first", "first", "slot", I32), F("second", "second", "slot", STR)>>)
@@ -232,7 +271,7 @@ AllKeys == {"Unit", "Simple", "Two", "Tup", "Renamed", "TupRen", "WithAttr", "Tw
             "AttrVec", "AttrMap", "HdrBoth", "HdrVec", "HdrNest", "BodyVec", "BodyStr", "BodyNest", "Skippy", "SkipTup", "Opt", "Coll",
             "GenI", "GenS", "GenTwo", "GenOptTwo", "Nested", "VecNest", "NewT", "NewS", "TagField", "Shape",
             "OpSI", "OpITwo", "ConvStruct", "ConvEnum", "Nums", "ModelVal", "WithValue", "BodyValue", "HdrValue",
-            "i32", "u64", "f64", "bool", "String", "VecI", "OptI", "MapSI", "PairIS", "OptTwo", "VecTwo", "VecOptI", "Duration"} \cup ReuseKeys \cup PosKeys
+            "i32", "u64", "f64", "bool", "String", "VecI", "OptI", "MapSI", "PairIS", "OptTwo", "VecTwo", "VecOptI", "Duration", "RetryStrategy", "Value", "AttrTup", "HBodyTup"} \cup ReuseKeys \cup PosKeys
 
 
 LevelNames == {"Info", "Warn"}
@@ -246,12 +285,6 @@ HasRole(fs, r) == \E i \in 1..Len(fs) : fs[i].role = r
 (*    struct: var = variant index (0 for structs), v = values of the live  *)
 (*    (non-skipped) fields in declaration order                            *)
 (***************************************************************************)
-NoneI        == [k |-> "none"]
-SomeI(x)     == [k |-> "some", v |-> <<x>>]
-VecI(xs)     == [k |-> "vec", v |-> xs]
-MapI(es)     == [k |-> "map", v |-> es]
-TupleI(xs)   == [k |-> "tuple", v |-> xs]
-StructI(n, xs) == [k |-> "struct", var |-> n, v |-> xs]
 
 ValuePool(d) ==
     IF d = 0 THEN { Extant, Sym("i", "0"), Sym("s", "0"), Rec(<<>>, <<>>),
@@ -277,20 +310,24 @@ PrimDom(p, d) ==
       [] p = "value"  -> ValuePool(d)
       \* the position battery: one symbol per boundary class of the kind (the pools hold the kind limits and the
       \* values that force each MessagePack width)
-      [] p = "i32w"   -> {Sym("i", "0"), Sym("n", "0")}
-      [] p = "i64w"   -> IF d <= 1 THEN {Sym("i", "0"), Sym("n", "0"), Sym("h", "0"), Sym("g", "0"), Sym("N", "0")} ELSE {Sym("N", "0")}
-      [] p = "u32w"   -> {Sym("i", "0"), Sym("h", "0")}
-      [] p = "u64w"   -> IF d <= 1 THEN {Sym("i", "0"), Sym("h", "0"), Sym("g", "0"), Sym("G", "0")} ELSE {Sym("G", "0")}
-      [] p = "usize"  -> {Sym("i", "0"), Sym("g", "0"), Sym("G", "0")}
+      [] p = "i32w"   -> {Zero, Sym("i", "0"), Sym("n", "0")}
+      [] p = "i64w"   -> IF d <= 1 THEN {Zero, Sym("i", "0"), Sym("n", "0"), Sym("h", "0"), Sym("g", "0"), Sym("L", "0"), Sym("N", "0")}
+                         ELSE {Sym("N", "0")}
+      [] p = "u32w"   -> {Zero, Sym("i", "0"), Sym("h", "0")}
+      [] p = "u64w"   -> IF d <= 1 THEN {Zero, Sym("i", "0"), Sym("h", "0"), Sym("g", "0"), Sym("L", "0"), Sym("G", "0")} ELSE {Sym("G", "0")}
+      [] p = "usize"  -> {Zero, Sym("i", "0"), Sym("g", "0"), Sym("G", "0")}
+      [] p = "nzusize" -> IF d <= 1 THEN {Sym("q", "0"), Sym("G", "0")} ELSE {Sym("q", "0")}
+      [] p = "uri"    -> {Sym("r", "0")}
       [] p = "f64w"   -> {Sym("f", "0"), Sym("f", "1")}
       [] p = "stringw" -> {Sym("s", "0"), Sym("s", "1")}
       [] p = "text"   -> {Sym("s", "0")}
-      [] p = "bigint" -> {Sym("i", "0"), Sym("n", "0"), Sym("G", "0"), Sym("B", "0"), Sym("M", "0")}
-      [] p = "biguint" -> {Sym("i", "0"), Sym("G", "0"), Sym("B", "0")}
+      [] p = "bigint" -> {Zero, Sym("i", "0"), Sym("n", "0"), Sym("G", "0"), Sym("B", "0"), Sym("M", "0")}
+      [] p = "biguint" -> {Zero, Sym("i", "0"), Sym("G", "0"), Sym("B", "0")}
       [] p = "blob"   -> {Sym("d", "0"), Sym("d", "1")}
       [] p = "unit"   -> {Extant}
-      [] p = "timestamp" -> {Sym("T", "0"), Sym("T", "1")}
+      [] p = "timestamp" -> {Sym("T", "0"), Sym("U", "0")}
       [] p = "nanos"  -> {Sym("z", "0")}
+      [] p = "secs"   -> IF d <= 1 THEN {Sym("i", "0"), Sym("G", "0")} ELSE {Sym("G", "0")}
 
 RECURSIVE Inst(_, _)
 InstFields(fields, d) ==
@@ -303,6 +340,7 @@ InstDesc(D, d) ==
 Inst(t, d) ==
     CASE t.c = "prim"  -> PrimDom(t.p, d)
       [] t.c = "opt"   -> {NoneI} \cup {SomeI(x) : x \in Inst(t.e, d + 1)}
+      [] t.c = "quant" -> {InfI} \cup {FinI(x) : x \in Inst(t.e, d + 1)}
       [] t.c = "vec"   -> LET E == Inst(t.e, d + 1) IN
                           {VecI(<<>>)} \cup {VecI(<<x>>) : x \in E}
                           \cup (IF d = 0 THEN {VecI(<<x, y>>) : x \in E, y \in E} ELSE {})
@@ -360,6 +398,7 @@ RenderDesc(D, x) ==
 Render(t, x) ==
     CASE t.c = "prim"  -> x
       [] t.c = "opt"   -> IF x.k = "none" THEN Extant ELSE Render(t.e, x.v[1])
+      [] t.c = "quant" -> IF x.k = "inf" THEN Txt("infinite") ELSE Render(t.e, x.v[1])
       [] t.c = "vec"   -> Rec(<<>>, [i \in 1..Len(x.v) |-> Item(Render(t.e, x.v[i]))])
       [] t.c = "map"   -> Rec(<<>>, [i \in 1..Len(x.v) |-> Slot(Render(t.key, x.v[i][1]), Render(t.val, x.v[i][2]))])
       [] t.c = "tuple" -> Rec(<<>>, [i \in 1..Len(x.v) |-> Item(Render(t.es[i], x.v[i]))])
@@ -424,23 +463,26 @@ MutAt(op, v, depth) ==
 Fail  == [ok |-> FALSE]
 Ok(x) == [ok |-> TRUE, x |-> x]
 
-IntClasses == {"i", "n", "g", "h", "G", "N", "B", "M", "T", "z"}
+IntClasses == {"i", "n", "g", "h", "G", "N", "B", "M", "T", "U", "z", "Z", "q", "c", "L"}
 ReadPrim(p, v) ==
-    LET acc == CASE p \in {"i32", "i32w"} -> {"i", "n", "z"}
-                 [] p \in {"i64", "i64w"} -> {"i", "n", "g", "h", "N", "T", "z"}
-                 [] p \in {"u32", "u32w"} -> {"i", "h", "z"}
-                 [] p \in {"u64", "u64w", "usize"} -> {"i", "g", "h", "G", "T", "z"}
+    LET acc == CASE p \in {"i32", "i32w"} -> {"i", "n", "z", "q", "Z", "c"}
+                 [] p \in {"i64", "i64w"} -> {"i", "n", "g", "h", "N", "T", "U", "z", "q", "Z", "c", "L"}
+                 [] p \in {"u32", "u32w"} -> {"i", "h", "z", "q", "Z", "c"}
+                 [] p \in {"u64", "u64w", "usize", "secs"} -> {"i", "g", "h", "G", "T", "z", "q", "Z", "c", "L"}
                  [] p \in {"f64", "f64w"} -> {"f"} \cup IntClasses
                  [] p = "bool"   -> {"b"}
-                 [] p \in {"string", "stringw", "text"} -> {"s", "t"}
+                 [] p \in {"string", "stringw", "text"} -> {"s", "t", "r"}
+                 [] p = "nzusize" -> {"i", "q", "g", "h", "G", "L", "c"}
+                 [] p = "uri"    -> {"r", "s", "t"}
                  [] p = "bigint" -> IntClasses
-                 [] p = "biguint" -> {"i", "g", "h", "G", "B", "T", "z"}
+                 [] p = "biguint" -> {"i", "g", "h", "G", "B", "T", "z", "q", "Z", "c", "L"}
                  [] p = "blob"   -> {"d"}
                  [] p = "unit"   -> {"x"}
-                 [] p = "timestamp" -> {"T"}
-                 [] p = "nanos"  -> {"z"}
+                 \* (any micro-second count within chrono's range: not i64::MAX / MIN, not beyond i64)
+                 [] p = "timestamp" -> {"T", "U", "i", "n", "g", "h", "z", "q", "Z", "c"}
+                 [] p = "nanos"  -> {"z", "i", "h", "q", "Z", "c"}
                  [] p = "level"  -> {"t"}
-                 [] p = "value"  -> {"x", "f", "b", "s", "t", "d", "rec"} \cup IntClasses
+                 [] p = "value"  -> {"x", "f", "b", "s", "t", "r", "d", "rec"} \cup IntClasses
     IN  IF v.k \in acc /\ (p = "level" => v.s \in LevelNames) THEN Ok(v) ELSE Fail
 
 \* simple = a single event (RecognizerReadable::is_simple)
@@ -468,7 +510,9 @@ ReadAttrBody(t, hv) ==
       [] OTHER -> Read(t, hv)
 
 \* the value of the field f if it is absent from the document
-Absent(f) == IF f.ty.c = "opt" THEN Ok(NoneI) ELSE Fail
+Absent(f) == IF f.ty.c = "opt" THEN Ok(NoneI)
+             ELSE IF Lenient(f) THEN Ok(f.dflt)       \* hand-written readers: unwrap_or_default
+             ELSE Fail
 
 \* header of a struct: hbF = <<field>> or <<>>, hsF = header slot fields ; hv = body of the tag attribute.
 \* result: [ok, hb: <<x>> or <<>>, hs: sequence of x]
@@ -509,6 +553,8 @@ ReadBody(t, attrs, items) ==
         \* DelegateBodyMaterializer: a single value item is that value, an empty body is extant
         IF attrs = <<>> /\ Len(items) = 1 /\ ~items[1].slot THEN Ok(items[1].v)
         ELSE IF attrs = <<>> /\ items = <<>> THEN Ok(Extant) ELSE Ok(Rec(attrs, items))
+    \* (finding F12: Duration / RetryStrategy ::make_body_recognizer expect the value wrapped in a record body)
+    ELSE IF t \in {Named("Duration"), Named("RetryStrategy")} /\ "F12" \in Defects THEN Fail
     ELSE Read(t, Rec(attrs, items))
 
 ReadStruct(tag, fields, v) ==
@@ -546,8 +592,12 @@ ReadStruct(tag, fields, v) ==
         pos(i)  == CHOOSE j \in 1..Len(slI) : slI[j] = i
         slr(i)  == IF labelled
                    THEN IF Cardinality(occS(live[i].name)) = 0 THEN Absent(live[i])
-                        ELSE IF Cardinality(occS(live[i].name)) > 1 THEN Fail
-                        ELSE Read(live[i].ty, v.items[CHOOSE j \in occS(live[i].name) : TRUE].v)
+                        ELSE IF Cardinality(occS(live[i].name)) > 1 /\ ~Lenient(live[i]) THEN Fail
+                        \* (lenient readers: every occurrence is read, the last one wins)
+                        ELSE LET js == occS(live[i].name)
+                                 last == CHOOSE j \in js : \A k \in js : k <= j
+                             IN IF \A j \in js : Read(live[i].ty, v.items[j].v).ok
+                                THEN Read(live[i].ty, v.items[last].v) ELSE Fail
                    ELSE Read(live[i].ty, v.items[pos(i)].v)
         hpos(i, I) == CHOOSE j \in 1..Len(I) : I[j] = i
         res(i)  == CASE live[i].role = "tag"    -> Ok(Txt(a1.n))
@@ -575,6 +625,8 @@ Read(t, v) ==
     CASE t.c = "prim"  -> ReadPrim(t.p, v)
       [] t.c = "opt"   -> IF v = Extant /\ ~(t.e.c = "prim" /\ t.e.p = "value") THEN Ok(NoneI)
                           ELSE LET r == Read(t.e, v) IN IF r.ok THEN Ok(SomeI(r.x)) ELSE Fail
+      [] t.c = "quant" -> IF v = Txt("infinite") THEN Ok(InfI)
+                          ELSE LET r == Read(t.e, v) IN IF r.ok THEN Ok(FinI(r.x)) ELSE Fail
       [] t.c = "vec"   -> IF IsRec(v) /\ v.attrs = <<>> /\ \A i \in 1..Len(v.items) : ~v.items[i].slot
                           THEN LET rs == ReadAll(t.e, [i \in 1..Len(v.items) |-> v.items[i].v]) IN
                                IF AllOk(rs) THEN Ok(VecI(Xs(rs))) ELSE Fail
